@@ -241,7 +241,7 @@ Qed.
 Theorem hyb_enc_len_x_ok w rs : hyb_enc_len_x w rs = hyb_enc_len w rs.
 Proof. unfold hyb_enc_len_x, hyb_enc_len. now rewrite hyb_enc_x_ok, lenN_ok. Qed.
 
-(* the same theorem in the shape used by the page-level proofs (Format/ *): non-empty runs, n as an N bound *)
+(* the same theorem in the shape used by the page-level proofs (Format files): non-empty runs, n as an N bound *)
 Definition run_ok (w : N) (r : hrun) : Prop :=
   match r with
   | RLE c v => 0 < c /\ v < 2 ^ w
